@@ -195,7 +195,8 @@ def render(doc: Doc) -> str:
 # ----------------------------------------------------------------- generation
 # call heads: the set is the last argument, after zero or more earlier arguments (curried calls)
 CALL_HEADS = ["mkDerivation", "stdenv.mkDerivation", "f", "mkDerivation", "stdenv.mkDerivation", "f",
-              "f x y", "callPackage ./pkg.nix { }", "lib.makeOverridable f x", "f (g 1) [ 2 ] x"]
+              "f x y", "callPackage ./pkg.nix { }", "lib.makeOverridable f x", "f (g 1) [ 2 ] x",
+              "(f) a", "(lib.makeOverridable f) args", "((g)) x y", "(f)"]
 VALUES_ONE_LINE = [
     lambda r: str(r.randrange(0, 9999)),
     lambda r: '"' + r.choice(["1.2.3", "demo", "https://example.org/x.tar.gz", "a b", "é→", ""]) + '"',
@@ -374,6 +375,14 @@ class DocGen:
             e = Entry("plain", [lname], value=self.value())
             self.decorate(e, first=not out)
             out.append(e)
+        if self.inherit and self.r.random() < 0.15:
+            # inherit clauses among the bindings of a layer (they are entries of the layer too:
+            # a layer that still holds one is not empty)
+            self.n += 1
+            e = Entry("inherit", names=[f"l_inh{self.n}"] + ([f"l_inh{self.n}b"] if self.r.random() < 0.3 else []),
+                      source=self.r.choice([None, "pkgs", "lib.x"]))
+            self.decorate(e, first=not out)
+            out.insert(self.r.randrange(len(out) + 1), e)
         if self.r.random() < 0.12:
             # dotted bindings that share a root, as in a set: `l_fam.x = 1; l_fam.y = 2;`
             self.n += 1
